@@ -18,15 +18,18 @@ CHECKS = {
         "flag, no reachable panic), with the primitive 2W-bit multiply/divide abstracted (trusted) and the 128-bit division's "
         "Knuth-D routine abstracted. Kani/CBMC through the public API (includes the primitive): mul against a 2W-bit product, "
         "div flag by a shift/compare criterion and quotient by multiply-back, full operand space for widths 8-32 (mul 64) at "
-        "boundary fractional counts; 128-bit mul on operand families.",
+        "boundary fractional counts; 128-bit mul on operand families; 64/128-bit div for EVERY dividend against constant divisors "
+        "(+-1 ulp, +-2^k, 3, 10 and the two-limb 2^(W/2)+3 that drives the main loop of Knuth D).",
         TRUST + "Engine M additionally trusts cvc5/z3, the nightly MIR dump and the executor vm/mir.py (validated concretely "
-        "against exact arithmetic on every run). Outside: wide_div.rs (Knuth D), wrapped value of an overflowing division for "
-        "widths >= 16 at API level.", "MIR->SMT symbolic execution (cvc5, z3) + " + KANI, "DESIGN.md 1.1b, 4 C01"),
+        "against exact arithmetic on every run). Outside: 64/128-bit division by a SYMBOLIC divisor at API level (Knuth D of wide_div.rs "
+        "is abstracted in Engine M), wrapped value of an overflowing division for widths >= 16 with a symbolic divisor.", "MIR->SMT symbolic execution (cvc5, z3) + " + KANI, "DESIGN.md 1.1b, 4 C01"),
     "C02": (
         "Bounded model checking: per alias and per policy form (one library multiplication/division per query) the solver decides "
         "over all operand pairs that checked/saturating/wrapping/overflowing (and the operator) agree with one exact result R "
-        "computed in 256-bit two's complement; zero divisors give None.",
-        TRUST + "Outside: 128-bit mul/div policy forms, 64-bit division, aliases not instantiated.", KANI, "DESIGN.md 4 C02"),
+        "computed in 256-bit two's complement; zero divisors give None; 64/128-bit division: all five forms for every dividend "
+        "against constant power-of-two divisors incl. -1 ulp.",
+        TRUST + "Outside: 128-bit mul policy forms outside C01's operand families, 64/128-bit division by a symbolic divisor, aliases "
+        "not instantiated.", KANI, "DESIGN.md 4 C02"),
     "C03": (
         "Bounded model checking: for each instantiated (type, type) pair the solver decides over every bit pattern of both operands "
         "(every float bit pattern incl. NaN/inf/subnormals) that all six operators and partial_cmp, in both operand orders, equal "
@@ -46,7 +49,8 @@ CHECKS = {
         "Bounded model checking on bit patterns (no floating-point operation is executed): every finite f32/f64 pattern into "
         "each instantiated alias equals round-to-nearest-even with overflow decided on the rounded value, per policy form; every "
         "fixed value to f32/f64 equals the IEEE RNE result incl. subnormals and overflow to infinity; NaN/inf: checked None, "
-        "saturating bounds, everything else must panic (the post-call assertion is unreachable).",
+        "saturating bounds, everything else must panic (the post-call assertion is unreachable). The 128-bit layouts with >= 125 "
+        "fractional bits (the only ones that resolve f32 subnormals / the lowest normal binade) are always instantiated.",
         TRUST + "Outside: aliases not instantiated, f16/bf16.", KANI, "DESIGN.md 4 C05"),
     "C06": (
         "Bounded model checking: for every value of each instantiated alias all forms of floor/ceil/round/round_ties_to_even, "
@@ -56,24 +60,30 @@ CHECKS = {
     "C07": (
         "Bounded model checking: widths 8 (every operation, every fractional count, both signs) and 16 (integer-divisor forms): "
         "all operand pairs against exact remainders / Euclidean quotients computed in i32/i64, including flags, wrapped values, "
-        "None and saturation side. Three genuine defects of div_euclid are recorded as known findings with their exact regions "
-        "carved out (known_findings.json).",
-        TRUST + "Outside: widths >= 32 and 16-bit fixed-divisor forms (two dividers of the same operands stall the SAT back end; "
-        "the code is one macro body for all widths).", KANI, "DESIGN.md 4 C07"),
+        "None and saturation side; widths 32 and 64: every dividend against constant divisors (+-1 ulp, +-1, powers of two, 3, the minimum, "
+        "integer divisors that do not fit the integer part). Three genuine defects of div_euclid are recorded as known findings with "
+        "their exact regions carved out (known_findings.json).",
+        TRUST + "Outside: symbolic divisors for widths >= 32 and 16-bit fixed-divisor forms (two dividers of the same operands stall the "
+        "SAT back end), width 128; the code is one macro body for all widths.", KANI, "DESIGN.md 4 C07"),
     "C08": (
         "Bounded model checking of the real parser on symbolic strings: 8-bit types: every ASCII string up to 4 (quick) / 5 bytes is Ok "
         "exactly when well-formed; every digit string of the listed shapes (up to 3+5 decimal digits; hex/octal/binary shapes) gives "
         "the nearest value, ties to even, with exact overflow flag / wrapped value (exact u64 division oracle), all four forms on "
-        "selected shapes; 16-bit slow path (7 fraction digits); tie-anchored literals with a 3-digit symbolic window.",
-        TRUST + "Outside: longer strings, long decimals of 32/64/128-bit types not anchored at a tie, non-ASCII input, error kinds.",
-        KANI, "DESIGN.md 4 C08"),
+        "selected shapes; 16-bit slow path (7 fraction digits); tie-anchored literals with a 3-digit symbolic window. Through the "
+        "verif_kernels hook the decimal kernels are decided directly: dec_to_bin of the u8 word for every val and nbits, of the u32/u64/"
+        "u128 words the rounds-up-to-one (None) decision for every val; dec_str_frac_to_bin::<u8> for every string of 4..8 digits and "
+        "every nbits.",
+        TRUST + "the hook wrappers (add-only). Outside: longer strings, quotient digits of the 32/64/128-bit kernels (division by the "
+        "constant 2*5^k does not finish), non-ASCII input, error kinds.",
+        KANI + " (kernels driven through a cfg-guarded hook)", "DESIGN.md 1.5, 4 C08"),
     "C09": (
         "Bounded model checking of the real formatting code through core::fmt into a stack buffer: for every value of the instantiated "
         "8-bit layouts the printed decimal digits satisfy the exact rounding inequality at the digits shown (default and requested "
         "precision 0..=10), the default output parses back to the same value through the real parser, binary/octal/hex outputs parse "
-        "back exactly, and six flag/width combinations only add padding, sign and prefix. One genuine defect (close-to-zero cut-off) "
-        "is a known finding with its region carved out.",
-        TRUST + "Stub: core::str::from_utf8 -> ASCII-asserting equivalent. Outside: 16..128-bit types, precision > 10, width > 14.",
+        "back exactly, and six flag/width combinations only add padding, sign and prefix; the Display/FromStr round trip also for "
+        "every value of the 16-bit layout U8F8 (when the run budget allows; more 16-bit layouts in the thorough tier). One genuine "
+        "defect (close-to-zero cut-off) is a known finding with its region carved out.",
+        TRUST + "Stub: core::str::from_utf8 -> ASCII-asserting equivalent. Outside: 32..128-bit types, precision > 10, width > 14.",
         KANI, "DESIGN.md 4 C09"),
     "C10": (
         "Bounded model checking of the compiled crate: for each instantiated alias CBMC decides, over every bit "
@@ -108,7 +118,9 @@ CHECKS.update({
         "known defect.", KANI + " (algebraic oracle)", "DESIGN.md 4 C13"),
     "C14": (
         "Bounded model checking on neighbourhoods of 2^8 operands: log2 / ln of I9F23 lie within the property's tolerance of an "
-        "outward-rounded linear enclosure of the true function computed with 200-bit interval arithmetic on every run.",
+        "outward-rounded linear enclosure of the true function computed with 200-bit interval arithmetic on every run; also "
+        "log2/ln::<I9F23, I32F32> (destination finer than the source) on two neighbourhoods (when the run budget allows; seven in the "
+        "thorough tier).",
         TRUST + "mpmath.iv. Coverage is a union of small neighbourhoods.", KANI + " + interval-arithmetic enclosures", "DESIGN.md 4 C14"),
     "C15": (
         "Bounded model checking: exp::<I9F23> on neighbourhoods of 2^8 operands against interval enclosures (2^-20 relative + 64 ulp); "
@@ -129,8 +141,9 @@ CHECKS.update({
         KANI + " + budgeted loop counter hook", "DESIGN.md 4 C17"),
     "C18": (
         "Bounded model checking: every operator/method of Wrapping<F> instantiated equals F's wrapping_* method (or the exact result "
-        "mod 2^W for products, multiply-back for quotients) for all operands; zero divisors must panic; every 3-operation program.",
-        TRUST + "Outside: division through Wrapping on widths >= 32, multiplication on 64/128 bits.", KANI, "DESIGN.md 4 C18"),
+        "mod 2^W for products, multiply-back for quotients) for all operands; / /= % %= by value and by reference for every dividend "
+        "against constant power-of-two divisors at 32/64/128 bits; zero divisors must panic; every 3-operation program.",
+        TRUST + "Outside: division by a symbolic divisor through Wrapping on widths >= 32, multiplication on 64/128 bits.", KANI, "DESIGN.md 4 C18"),
 })
 
 NOT_YET = {}
@@ -187,9 +200,11 @@ def main():
         ],
         "checks": checks,
         "not_applicable": na,
-        "notes": "Exit codes: 0 = all obligations discharged (open known findings printed as KNOWN-FINDING), "
-                 "1 = natively reproduced counterexample (VIOLATION line), 2 = inconclusive (time-out, solver "
-                 "error, vacuous harness). VERIF_SEED selects the seeded part of the alias/operand-family "
+        "notes": "Exit codes: 0 = every explored obligation discharged (open known findings printed as KNOWN-FINDING), "
+                 "1 = natively reproduced counterexample (VIOLATION line), 2 = inconclusive (solver error, vacuous harness, "
+                 "non-reproducing counterexample). The quick check stops itself after VERIF_BUDGET_S (default 800) seconds: "
+                 "obligations it did not get to, or that hit their own time/memory limit, are printed as UNDECIDED, listed in the "
+                 "evidence and never counted as discharged. VERIF_SEED selects the seeded part of the alias/operand-family "
                  "matrix; boundary instantiations are always included.",
     }
     out = os.path.join(VERIF, "MANIFEST.json")
